@@ -656,13 +656,17 @@ func c17exec(c *h.Ctx, cs *h.Case) {
 					obs = "harness-error"
 					break
 				}
+				// (a server that already has a connection with that key uses it: nothing new reaches this router)
+				fresh := w.srv.Router.VerifConnCount(in.r.ServerIdentity.GetID()) == 0
 				if _, err := w.srv.Send(in.r.ServerIdentity, &C17Msg{M: -1}); err != nil {
 					obs = "dial-error"
 					cs.Fail("dial-error", err.Error())
 				} else {
 					obs = "ok"
 					// the peer's side registers the connection when the identity arrived
-					w.awaitPeerSide(in)
+					if fresh {
+						w.awaitPeerSide(in)
+					}
 				}
 				tags["dial"] = true
 			}
